@@ -724,6 +724,37 @@ def run_core_case(case):
     return {"outcome": "ok", "problems": problems, "ncalls": None}
 
 
+N_QUAT = 400
+
+
+def run_quat_case(case):
+    """orientations in generic position (400 deterministic pseudo-random unit quaternions per path step): an object whose path is
+    shorter than the longest one of the call is padded and cut back - afterwards its stored quaternions must be the same BITS
+    (re-normalising a stored unit quaternion may change its last digit), and the repeated call must give the identical array"""
+    import magpylib as magpy
+    from scipy.spatial.transform import Rotation as R
+
+    k = case["quat"]
+    x = np.modf(np.sin(np.arange(1, 13) * (k + 1) * 12.9898) * 43758.5453)[0]
+    q = x[:8].reshape(2, 4) * 2.0 + np.array((0.3, -0.2, 0.1, 0.05))
+    src = magpy.magnet.Cuboid(dimension=(1, 1.2, 0.8), polarization=(0.1, 0.2, 0.3), position=[(0, 0, 0), (1, 0, 0)], orientation=R.from_quat(q))
+    sens = magpy.Sensor(position=np.linspace((0, 0, 2), (1, 0, 2), 4), orientation=R.from_quat(x[8:12] + 0.1))
+    coll = magpy.Collection(magpy.misc.Dipole(moment=(1, 2, 3), position=(0.5, 0.5, 0.5), orientation=R.from_quat(q[0] * 0.7 + 0.2)))
+    objs = [src, sens, coll, coll.children[0]]
+    before = [(o._position.tobytes(), o._orientation.as_quat().tobytes()) for o in objs]
+    B1 = magpy.getB([src, coll], sens)
+    after = [(o._position.tobytes(), o._orientation.as_quat().tobytes()) for o in objs]
+    problems = []
+    for name, b, a in zip(("source", "sensor", "collection", "child"), before, after):
+        if b != a:
+            problems.append(f"objects changed: stored path of the {name} differs in its last digits after getB (padded and cut back)")
+            break
+    B2 = magpy.getB([src, coll], sens)
+    if not problems and not np.array_equal(B1, B2):
+        problems.append("second call differs")
+    return {"outcome": "ok", "problems": problems, "ncalls": None}
+
+
 def run_functional(case):
     import magpylib as magpy
 
@@ -772,6 +803,8 @@ def work(case):
             return run_core_case(case)
         if "functional" in case:
             return run_functional(case)
+        if "quat" in case:
+            return run_quat_case(case)
         return run_case(case)
     except Exception as e:
         return {"outcome": "HARNESS", "problems": [], "harness": f"{type(e).__name__}: {e}"[:300], "ncalls": None}
@@ -800,6 +833,8 @@ def vkey(case, res):
         return f"C08|core|{case['core']}|{res['problems'][0].split(':')[0]}"
     if "functional" in case:
         return f"C08|functional|{case['functional']}|{res['problems'][0].split(':')[0]}"
+    if "quat" in case:
+        return f"C08|generic-orientation|{res['problems'][0].split(':')[0]}"
     kind = res["problems"][0].split(":")[0]
     return f"C08|{case['fault']}|{case['entry']}|{res['outcome']}|{kind}"
 
@@ -815,7 +850,7 @@ INJECT_CONFIGS = [
 
 
 def run(tier, seed):
-    cases = enumerate_cases(tier) + functional_cases()
+    cases = enumerate_cases(tier) + functional_cases() + [{"quat": k} for k in range(N_QUAT)]
     res = common.pmap(work, cases)
     viols, harness = [], []
     outcomes = {}
@@ -825,7 +860,7 @@ def run(tier, seed):
         if r.get("harness"):
             harness.append(f"{c}: {r['harness']}")
             continue
-        if "functional" not in c and "core" not in c:
+        if "functional" not in c and "core" not in c and "quat" not in c:
             lens = {pl for _, pl in c["srcs"]} | {c["obs_plen"]}
             if len(lens) > 1 or c["fault"] != "none":
                 nontrivial.add(json.dumps(c, sort_keys=True))
